@@ -68,7 +68,7 @@ manifest = {
              "changed (about 15-40 s, shared by all properties through .cache/), then runs the pack (2-5 s). "
              "Exit 2 = checker/infrastructure error (e.g. /repo does not compile), never a verdict. Regression corpora "
              "kept under /verif: seeded/ (118 confirmed property-breaking changes written by sub-agents that saw only the "
-             "property text, 40 of them disguised as refactorings; each must be reported by its own property's check), neutral/ (120 behaviour-preserving "
+             "property text, 40 of them disguised as refactorings; each must be reported by its own property's check), neutral/ (180 behaviour-preserving "
              "refactorings; every check must stay silent), mutations/ (catalogue incl. neutral edits); run with "
              "tools/run_corpus.py and mutations/run.py on scratch copies.",
 }
